@@ -10,7 +10,11 @@ static const unsigned char spec_alpha[] = C_ALPHA_LIT;
 static unsigned char C_REVTAB[256];
 static int reverse_init;
 #define VERIF_REVTAB_FRAME __CPROVER_object_whole(C_REVTAB), reverse_init
+#ifdef VERIF_REPLAY
+#define VERIF_REACH() ((void)0)
+#else
 #include "contracts/codec.h"
+#endif
 #include C_SRC
 
 void h_encode(void)
@@ -33,6 +37,7 @@ void h_decode(void)
 	VERIF_REACH();
 }
 
+#ifndef VERIF_REPLAY
 size_t nondet_size_t(void);
 int nondet_int(void);
 unsigned nondet_unsigned(void);
@@ -96,4 +101,73 @@ void h_alphabet(void)
 #if CODEC == 32
 void h_5to8(void) { int in; b32_5to8(in); VERIF_REACH(); }
 void h_8to5(void) { int in; b32_8to5(in); VERIF_REACH(); }
+#endif
+#endif /* !VERIF_REPLAY */
+
+#if defined(VERIF_WITNESS) || defined(VERIF_REPLAY)
+/* bounded witness search / native replay of the same clauses (DESIGN 4.7) */
+#include "lib/wit.h"
+#ifndef WN
+#define WN 6
+#endif
+void w_encode(void)
+{
+	WIT_SCALAR(size_t, size);
+	WIT_SCALAR(size_t, cap);
+	WIT_ASSUME(size <= WN && cap <= 2 * WN);
+	WIT_BYTES(data, WN, size);
+	WIT_OUT(buf, cap + 1);
+	size_t used = cap, j;
+	int r = C_OPS.encode((char *)buf, &used, data, size);
+	WIT_CHECK(ENC_POST_LEN(r, cap, used, size), "encoder length/capacity/maximality clause");
+	WIT_CHECK(buf[r] == 0, "encoder terminator");
+	for (j = 0; j < (size_t)r && j < 2 * WN; j++)
+		WIT_CHECK(ENC_CHAR_OK(buf, data, size, j), "encoder character is the documented bit-stream character");
+}
+void w_decode(void)
+{
+	WIT_SCALAR(size_t, slen);
+	WIT_SCALAR(size_t, cap);
+	WIT_ASSUME(slen <= WN && cap <= WN);
+	WIT_BYTES(str, WN, slen);
+	WIT_OUT(out, cap + 1);
+	size_t ocap = cap, g;
+	int r = C_OPS.decode(out, &ocap, (const char *)str, slen);
+	WIT_CHECK(DEC_POST_LEN(r, cap, str, slen), "decoder length clause");
+	for (g = 0; g < SPEC_ENCLEN(CBITS, r) && g < WN; g++)
+		WIT_CHECK(str[g] != 0, "decoder consumed a NUL");
+	for (g = 0; g < (size_t)r && g < WN; g++)
+		WIT_CHECK(DEC_BYTE_OK(out, str, g), "decoder byte is the regrouped stream of reverse-mapped characters");
+}
+void w_roundtrip(void)
+{
+	WIT_SCALAR(size_t, size);
+	WIT_SCALAR(size_t, cap);
+	WIT_ASSUME(size <= WN && cap <= 2 * WN);
+	WIT_BYTES(data, WN, size);
+	WIT_OUT(buf, cap + 1);
+	WIT_OUT(out, WN + 1);
+	size_t used = cap, ocap = WN, g;
+	int r = C_OPS.encode((char *)buf, &used, data, size);
+	int r2 = C_OPS.decode(out, &ocap, (const char *)buf, (size_t)r);
+	WIT_CHECK((size_t)r2 == used, "roundtrip length");
+	for (g = 0; g < used && g < WN; g++)
+		WIT_CHECK(out[g] == data[g], "roundtrip byte");
+}
+#if CODEC == 32
+void w_8to5(void)
+{
+	WIT_SCALAR(int, in);
+	int r = b32_8to5(in);
+	WIT_CHECK(r >= 0 && r < 32 && (unsigned)r == C_REV((unsigned char)in), "b32_8to5 value");
+}
+void w_5to8(void)
+{
+	WIT_SCALAR(int, in);
+	WIT_CHECK((unsigned)b32_5to8(in) == C_ALPHA(((unsigned)in) & 31u), "b32_5to8 value");
+}
+#endif
+#ifdef VERIF_REPLAY
+WIT_MAIN(WIT_ENTRY)
+#endif
 #endif
